@@ -256,10 +256,103 @@ ROUTES = {
 }
 
 
+def uploads_table_failures():
+    """native run-time contract on the real UploadsInProgress (built through its real, attrs-generated constructors):
+    every history of up to 4 add/remove operations over two storage indexes x two share numbers; afterwards each
+    (storage index, share, secret) is accepted exactly when that share has no upload in progress or the secret is its own"""
+    import itertools
+    from allmydata.storage import http_server as hs
+    slots = [(b"A" * 16, 0), (b"A" * 16, 1), (b"B" * 16, 0), (b"B" * 16, 1)]
+    ops = [("add", sl) for sl in slots] + [("remove", sl) for sl in slots]
+    bad, n = [], 0
+    for length in range(0, 5):
+        for seq in itertools.product(ops, repeat=length):
+            table = hs.UploadsInProgress()
+            model, buckets = {}, {}
+            okseq = True
+            valid = True
+            m_ = {}
+            for (op, sl) in seq:        # only histories that add a free slot / remove an occupied one
+                if (op == "add") == (sl in m_):
+                    valid = False
+                    break
+                if op == "add":
+                    m_[sl] = 1
+                else:
+                    del m_[sl]
+            if not valid:
+                continue
+            try:
+                crashed = None
+                for (op, sl) in seq:
+                    if op == "add":
+                        b = object()
+                        buckets[sl] = b
+                        model[sl] = b"secret-%s-%d" % (sl[0][:1], sl[1])
+                        table.add_write_bucket(sl[0], sl[1], model[sl], b)
+                    else:
+                        table.remove_write_bucket(buckets.pop(sl))
+                        del model[sl]
+            except Exception as e:       # noqa
+                bad.append({"history": [(o, s_[0][:1].decode(), s_[1]) for (o, s_) in seq], "raised": "%s: %s" % (type(e).__name__, e)})
+                n += 1
+                continue
+            for (op, sl) in ():
+                if op == "add":
+                    if sl in model:
+                        okseq = False
+                        break
+                    b = object()
+                    buckets[sl] = b
+                    model[sl] = b"secret-%s-%d" % (sl[0][:1], sl[1])
+                    table.add_write_bucket(sl[0], sl[1], model[sl], b)
+                else:
+                    if sl not in model:
+                        okseq = False
+                        break
+                    table.remove_write_bucket(buckets.pop(sl))
+                    del model[sl]
+            if not okseq:
+                continue
+            n += 1
+            for sl in slots:
+                for other in slots:
+                    secret = b"secret-%s-%d" % (other[0][:1], other[1])
+                    try:
+                        table.validate_upload_secret(sl[0], sl[1], secret)
+                        accepted = True
+                    except hs._HTTPError:
+                        accepted = False
+                    want = (sl not in model) or model[sl] == secret
+                    if accepted != want:
+                        bad.append({"history": [(o, s_[0][:1].decode(), s_[1]) for (o, s_) in seq], "upload": (sl[0][:1].decode(), sl[1]), "presented_secret_of": (other[0][:1].decode(), other[1]), "accepted": accepted})
+                if sl in model:
+                    try:
+                        got = table.get_write_bucket(sl[0], sl[1], model[sl])
+                    except hs._HTTPError:
+                        got = None
+                    if got is not buckets[sl]:
+                        bad.append({"history": [(o, s_[0][:1].decode(), s_[1]) for (o, s_) in seq], "upload": (sl[0][:1].decode(), sl[1]), "own_secret_gives_own_bucket": False})
+    return bad, n
+
+
 def extra_checks(rep, tier):
     """structural (syntactic, not deductive): every route of HTTPServer goes through _authorized_route with the documented secrets"""
     from contracts import grid_http
     grid_http.grid_check(rep, tier, "C30")
+    bad, n = uploads_table_failures()
+    name = "UploadsTable:an-upload-accepts-its-own-secret-only-whatever-other-uploads-are-in-progress"
+    rep.obligations += 1
+    rep.bounded_obligations += 1
+    rep.paths += n
+    rep.sym_paths += n
+    rep.bounds.append("uploads table: every valid history of <= 4 add/remove operations over 2 storage indexes x 2 share numbers (%d histories), all 16 (upload, presented secret) pairs each; real UploadsInProgress built by its real constructors" % n)
+    if not bad:
+        rep.discharged += 1
+        rep.discharged_names.add(name)
+    else:
+        rep.violations.append({"property": "C30", "contract": "UploadsTable", "obligation": name, "status": "runtime", "inputs": bad[0],
+                               "native_outcome": "%d wrong decisions over %d histories; first: %r" % (len(bad), n, bad[0]), "confirmed_on_real_code": True})
     import os
     from pyvc.harness import SRC
     tree, src = parse_file(os.path.join(SRC, F))
